@@ -1120,8 +1120,9 @@ def tree_path_to_fs_path(
       tree_encoding: Encoding used for tree paths (default: utf-8)
     Returns: Filesystem path as bytes (with os.sep, filesystem encoding)
     """
-    # Decode from tree encoding
-    path_str = tree_path.decode(tree_encoding)
+    # Decode from tree encoding; bytes that are not valid in it are kept
+    # (and restored by os.fsencode below), as tree paths are arbitrary bytes
+    path_str = tree_path.decode(tree_encoding, "surrogateescape")
 
     # Replace / with OS separator if needed
     if os.sep != "/":
